@@ -1,5 +1,6 @@
 From Coq Require Extraction ExtrOcamlBasic.
-From OxiVerif Require Import Base.Conv DD.Table DD.TableExtra DD.Sem Num.I64 DD.Build DD.Apply DD.Quant.
+From OxiVerif Require Import Base.Conv DD.Table DD.TableExtra DD.Sem Num.I64 DD.Build DD.Apply DD.Quant
+  DD.ApplyBcdd DD.QuantBcdd.
 Extraction Language OCaml.
 Extraction "model.ml" conv_anchor
   Table.sem_edge Table.wf_b Table.famz Table.count_reach
@@ -10,4 +11,6 @@ Extraction "model.ml" conv_anchor
   Apply.nc_get Apply.nc_add
   Quant.set_pop Quant.quant_rec Quant.restrict Quant.substitute Quant.apply_quant
   Quant.quant_edge Quant.apply_quant_edge Quant.restrict_edge Quant.substitute_prepare Quant.substitute_edge
-  Quant.bcdd_dispatch Quant.bcdd_unique_dispatch.
+  Quant.bcdd_dispatch Quant.bcdd_unique_dispatch
+  ApplyBcdd.bcok_b ApplyBcdd.cmk_var ApplyBcdd.cmk_const ApplyBcdd.capply_op ApplyBcdd.enc_get ApplyBcdd.enc_add
+  QuantBcdd.cquant_edge QuantBcdd.capply_quant_edge QuantBcdd.crestrict_edge QuantBcdd.csubstitute_edge.
